@@ -50,7 +50,7 @@ type LoadStats struct {
 }
 
 // Load type-checks the repo packages named by patterns (plus overlay files) and builds SSA.
-func Load(repoDir string, overlay map[string][]byte, patterns []string) (*Program, *LoadStats, error) {
+func Load(repoDir string, overlay map[string][]byte, patterns []string, buildFlags ...string) (*Program, *LoadStats, error) {
 	t0 := time.Now()
 	var fset *token.FileSet
 	var pkgs []*packages.Package
@@ -65,6 +65,7 @@ func Load(repoDir string, overlay map[string][]byte, patterns []string) (*Progra
 			Fset:    fset,
 			Overlay: overlay,
 			Env:     append(cleanEnv(), "GOFLAGS=-mod=mod", "GOPROXY=off"),
+			BuildFlags: buildFlags,
 			ParseFile: func(fset *token.FileSet, filename string, src []byte) (*ast.File, error) {
 				f, err := parser.ParseFile(fset, filename, src, parser.SkipObjectResolution)
 				if err != nil {
